@@ -103,7 +103,7 @@ CHECKS["C18"] = dict(
    design="4/C18")
 CHECKS["C19"] = dict(
    technique="generated programs: documents from a Rust-tokenizable sub-grammar embedded in toml!{} and as string literals, compiled against /repo and run; in-binary oracle (table equality with float bits); delta-reduction of failures by recompilation",
-   text="2 programs x 150 documents (quick) / 16 x 400 (thorough) are generated, compiled against /repo/crates/toml and run; inside the binary the macro's table must equal str::parse::<toml::Table>() of the same text; a program that does not compile is a violation; failures are reduced by dropping top-level entries (one compile per step).",
+   text="8 programs x 200 documents (quick) / 32 x 400 (thorough) are generated, compiled against /repo/crates/toml and run; inside the binary the macro's table must equal str::parse::<toml::Table>() of the same text; a program that does not compile is a violation; failures are reduced by dropping top-level entries (one compile per step).",
    note="shapes the macro cannot take as Rust tokens (positive offsets, integers beyond i32, literal / multi-line strings, comments, numeric-looking bare keys) are outside the generated sub-grammar and listed in the evidence rule",
    design="4/C19")
 NOT_YET = {}
